@@ -59,32 +59,50 @@ def check_sin_cos(chk, F, ty):
             chk.undecide(key, "unsupported: %s" % ex, body_loc(F, body))
 
 
-def check_atan2(chk, F, ty):
-    """atan2(y, x): real part y.re.atan2(x.re); derivative parts those of a function with gradient (x,-y)/(x^2+y^2)"""
-    Y, XX = Poly.var("self.re"), Poly.var("other.re")
-    donor = apply_fn("atan", Y * XX.recip())
-
-    def real_of(ctx):
-        return donor
-    imp = algebra.dualnum_impl(F, ty)
-    body = F.impl_item(imp, "atan2") if imp else None
+def check_atan2(chk, F, ty, trait_body=None, names=("self", "other"), tag="lift"):
+    """atan2(y, x): real part y.re.atan2(x.re); derivative parts those of a function with gradient (x,-y)/(x^2+y^2).
+    Accepted donors (their gradients are derived by the checker's own differentiation): atan(y/x) and -atan(x/y)."""
+    Y, XX = Poly.var("%s.re" % names[0]), Poly.var("%s.re" % names[1])
+    donors = [apply_fn("atan", Y * XX.recip()), -apply_fn("atan", XX * Y.recip())]
+    if trait_body is None:
+        imp = algebra.dualnum_impl(F, ty)
+        body = F.impl_item(imp, "atan2") if imp else None
+    else:
+        body = trait_body
     if body is None:
-        chk.undecide("lift|%s|atan2" % ty, "missing anchor")
+        chk.undecide("%s|%s|atan2" % (tag, ty), "missing anchor")
         return
     pats = presence_patterns(ty)
     for pa in pats:
         for pb in pats:
-            sp = Spec(ty, absent_set("self", pa) | absent_set("other", pb))
-            key = "lift|%s|atan2|presence=%s%s" % (ty, pres_tag(pa), pres_tag(pb))
+            sp = Spec(ty, absent_set(names[0], pa) | absent_set(names[1], pb))
+            key0 = "%s|%s|atan2|presence=%s%s" % (tag, ty, pres_tag(pa), pres_tag(pb))
             try:
-                it = Interp(F, DOMK)
-                r = unref(it.call_body(body, [sp.operand("self", pa), sp.operand("other", pb)]))
-                want = sp.spec_of_real(donor)
-                want["re"] = DOMK.fn2("atan2", Y, XX)
-                compare_parts(chk, key, "atan2: real part self.re.atan2(other.re), derivative parts of atan(y/x)",
-                              body_loc(F, body), sp, r, want)
+                paths = run_paths(F, body, lambda: [sp.operand(names[0], pa), sp.operand(names[1], pb)])
             except Unsupported as ex:
-                chk.undecide(key, "unsupported: %s" % ex, body_loc(F, body))
+                chk.undecide(key0, "unsupported: %s" % ex, body_loc(F, body))
+                continue
+            for ctx, val, it, args in paths:
+                key = key0 if len(paths) == 1 else key0 + "|path=" + "".join("T" if b else "F" for (_, _, b, f) in ctx.trace if not f)
+                guards_ok = all(guard_on_re_only(k) for (k, d, b, f) in ctx.trace)
+                if not guards_ok:
+                    chk.ob(key + "|guards", False, "guards depend on real parts only", body_loc(F, body), found=path_descr(ctx))
+                wants = []
+                for dn in donors:
+                    w = sp.spec_of_real(dn)
+                    w["re"] = DOMK.fn2("atan2", Y, XX)
+                    wants.append(w)
+                v = unref(val)
+                best = None
+                for w in wants:
+                    try:
+                        if isinstance(v, Rec) and v.adt == ty and all(equal(value_part_poly(v, f), w[f]) for f, _ in sp.parts()):
+                            best = w
+                            break
+                    except Unsupported:
+                        pass
+                compare_parts(chk, key, "atan2: real part self.re.atan2(other.re), derivative parts of atan(y/x) (equivalently -atan(x/y))",
+                              body_loc(F, body), sp, val, best or wants[0])
 
 
 def check_signed(chk, F, ty):
